@@ -37,3 +37,16 @@ Print Assumptions C20_source_cidr_remove.
 Theorem C20_source_cidr_set : forall (c : list string) (values : string), V2.CIDRList_Set c values = view (cidr_set values).
 Proof. exact src_cidr_set. Qed.
 Print Assumptions C20_source_cidr_set.
+
+(* CIDRList.UnmarshalJSON: a JSON array of texts is taken as it is, a JSON text goes through Set (the model's
+   [cidr_unmarshal]); a body that is neither leaves the list untouched and is an error.  json.Unmarshal into a list of
+   texts and into a text are unknown functions of the body, here what the body is; and these two are all it consults. *)
+Theorem C20_source_cidr_unmarshal : forall (j : option cidr_json) (c : list string) (body : string),
+  V2.CIDRList_UnmarshalJSON (as_list_of j) (as_string_of j) c body
+  = match j with Some jj => (cidr_unmarshal jj, None) | None => (c, Some "cannot unmarshal into a string") end.
+Proof. exact src_cidr_unmarshal. Qed.
+Print Assumptions C20_source_cidr_unmarshal.
+Theorem C20_source_cidr_unmarshal_consults :
+  V2.CIDRList_UnmarshalJSON_consults = ["go_json_Unmarshal_as_list_string"; "go_json_Unmarshal_as_string"]%list.
+Proof. reflexivity. Qed.
+Print Assumptions C20_source_cidr_unmarshal_consults.
